@@ -46,12 +46,13 @@ structure Src (accts : List Acct) (groups : List (Nat × List Acct)) (L : List (
   iq_sub : ∀ e ∈ c1.iqReg, e ∈ (V.cl x).iqReg ∧ ∀ st ∈ cons, stanzaIq st ≠ some e.1
   pend_ok : ∀ e ∈ (V.cl x).pendingIn, ∃ k ∈ c1.iqReg, k.2 = Cont.keysForPending e.1.1 e.1.2
   kept : ∀ n', (x, n') ∈ L → ∀ r, r ∈ intendedG groups x n' →
-    inTransitV V x n'.id r = sumMap (retryDownTok n'.id r) cons ∨ n' ∈ c1.sentQueue
+    inTransitV V x n'.id r = sumMap (retryDownTok n'.id r) cons ∨ n' ∈ c1.sentQueue ∨ 100 < V.submitted.length
   kept_hand : (x, n) ∈ L → ∀ r, r ∈ intendedG groups x n → handTok n who n.id r = 1 →
     inTransitV V x n.id r = sumMap (retryDownTok n.id r) cons
   ret3 : ∀ n', (x, n') ∈ L → ∀ g, n'.dest = .group g →
     (lookup c1.ownSK g).isSome = true ∨ (∃ e ∈ c1.iqReg, firstGroupCont e.2 n'.id) ∨ (n'.id = n.id ∧ who = none)
-  retq : ∀ e ∈ c1.iqReg, ∀ n' w c, e.2 = Cont.keysForRetry n' w c → isGroupDest n'.dest = true → n' ∈ c1.sentQueue
+  retq : ∀ e ∈ c1.iqReg, ∀ n' w c, e.2 = Cont.keysForRetry n' w c → isGroupDest n'.dest = true →
+    n' ∈ c1.sentQueue ∨ 100 < V.submitted.length
 
 section Dst
 variable {ex : Bool} {accts : List Acct} {groups : List (Nat × List Acct)} {L : List (Acct × Node)} {V : View} {x : Acct}
@@ -63,7 +64,8 @@ theorem Src.toCont (h : TV ex accts groups L V) (hs : Src accts groups L V x con
     (hiq : stanzaIq st = some c1.nextIq)
     (htok : ∀ id r, contTok id r k1 = handTok n who id r) (hslot : ∀ i, slotTok i k1 = handSlot n who i)
     (hshape : ContShape k1) (hfirst : who = none → ∀ g, n.dest = .group g → firstGroupCont k1 n.id)
-    (hretq : ∀ n' w c, k1 = Cont.keysForRetry n' w c → isGroupDest n'.dest = true → n' ∈ c1.sentQueue) :
+    (hretq : ∀ n' w c, k1 = Cont.keysForRetry n' w c → isGroupDest n'.dest = true →
+      n' ∈ c1.sentQueue ∨ 100 < V.submitted.length) :
     SenderStep accts groups L V x cons rest
       { c1 with nextIq := c1.nextIq + 1, iqReg := c1.iqReg ++ [(c1.nextIq, k1)] } (pre ++ [st]) V.nextCtr := by
   have hplain : ∀ p ∈ pre ++ [st], PlainUp p := by
@@ -208,9 +210,11 @@ theorem Src.toFirst (h : TV ex accts groups L V) (hs : Src accts groups L V x co
     (sk : List (Nat × Nat)) (encs : List (Option Acct × Ct)) (k : Nat) (hk : V.nextCtr ≤ k)
     (hmono : ∀ g, (lookup c1.ownSK g).isSome = true → (lookup sk g).isSome = true)
     (hown : ∀ g, n.dest = .group g → (lookup sk g).isSome = true)
-    (hf : FreshMsg V.nextCtr k (.msg n.id n.dest none n.payload.isMedia encs none)) :
+    (hf : FreshMsg V.nextCtr k (.msg n.id n.dest none n.payload.isMedia encs none))
+    (q : List Node) (hnq : n ∈ q) (hq1 : ∀ m ∈ c1.sentQueue, m ∈ q ∨ 100 < V.submitted.length)
+    (hq2 : ∀ i, sentS i q ≤ sentS i c1.sentQueue + (if n.id = i then 1 else 0)) :
     SenderStep accts groups L V x cons rest
-      { c1 with sentQueue := c1.sentQueue ++ [n], ownSK := sk } [.msg n.id n.dest none n.payload.isMedia encs none] k := by
+      { c1 with sentQueue := q, ownSK := sk } [.msg n.id n.dest none n.payload.isMedia encs none] k := by
   exact {
     hx := hs.hx
     hq := hs.hq
@@ -248,7 +252,7 @@ theorem Src.toFirst (h : TV ex accts groups L V) (hs : Src accts groups L V x co
       have : sumMap (rcptOut n'.id r) cons = 0 := sumMap_eq_zero (fun st' h' => (hs.cons_plain st' h' n'.id r).2.2)
       rw [this]
       unfold rcptGot
-      rw [show ({ c1 with sentQueue := c1.sentQueue ++ [n], ownSK := sk } : Client).receipts = (V.cl x).receipts from hs.receipts]
+      rw [show ({ c1 with sentQueue := q, ownSK := sk } : Client).receipts = (V.cl x).receipts from hs.receipts]
       rfl
     ans_iq := fun e he => Or.inl (hs.iq_sub e he)
     ans_pend := hs.pend_ok
@@ -257,16 +261,13 @@ theorem Src.toFirst (h : TV ex accts groups L V) (hs : Src accts groups L V x co
       by_cases hid : n.id = n'.id
       · have hnn := hs.uniq n' hn' hid.symm
         subst hnn
-        right
-        show n' ∈ c1.sentQueue ++ [n']
-        simp
-      · rcases hs.kept n' hn' r hr with h1 | h1
+        exact Or.inr (Or.inl hnq)
+      · rcases hs.kept n' hn' r hr with h1 | h1 | h1
         · left
           simp only [sumMap_cons, sumMap_nil', upTok, hid, false_and, if_false]
           omega
-        · right
-          show n' ∈ c1.sentQueue ++ [n]
-          exact List.mem_append_left _ h1
+        · exact Or.inr (hq1 n' h1)
+        · exact Or.inr (Or.inr h1)
     ret3 := by
       intro n' hn' g hg
       rcases hs.ret3 n' hn' g hg with h1 | h1 | ⟨hid, _⟩
@@ -278,26 +279,28 @@ theorem Src.toFirst (h : TV ex accts groups L V) (hs : Src accts groups L V x co
     slots := by
       intro i
       have := hs.slot i
-      unfold sendSlots sentS at this ⊢
-      simp only [sumMap_append, sumMap_cons, sumMap_nil']
+      have hq2i := hq2 i
+      unfold sendSlots at this ⊢
+      show slotS i c1.iqReg + sentS i q ≤ 1
       unfold handSlot at this
       by_cases hid : n.id = i
-      · simp only [hid, hslotc, and_self, if_true] at this ⊢
+      · simp only [hid, hslotc, and_self, if_true] at this hq2i
         omega
-      · simp only [hid, if_false] at this ⊢
+      · simp only [hid, if_false] at this hq2i
         omega
     rids := by
       intro e he
       exact h.rids x e (hs.receipts ▸ he)
     retq := by
       intro e he n' w c hc hg
-      show n' ∈ c1.sentQueue ++ [n]
-      exact List.mem_append_left _ (hs.retq e he n' w c hc hg)
+      rcases hs.retq e he n' w c hc hg with h1 | h1
+      · exact hq1 n' h1
+      · exact Or.inr h1
     unop_out := fun r _ m => hf.unop groups r m }
 
 /-- the message is sent again to one participant of a group -/
 theorem Src.toRetry (h : TV ex accts groups L V) {w : Acct} (hs : Src accts groups L V x cons rest c1 n (some w))
-    (hin : n ∈ c1.sentQueue)
+    (hin : n ∈ c1.sentQueue ∨ 100 < V.submitted.length)
     (sk : List (Nat × Nat)) (encs : List (Option Acct × Ct)) (k : Nat) (hk : V.nextCtr ≤ k)
     (hmono : ∀ g, (lookup c1.ownSK g).isSome = true → (lookup sk g).isSome = true)
     (hf : FreshMsg V.nextCtr k (.msg n.id n.dest (some w) n.payload.isMedia encs none)) :
